@@ -436,6 +436,16 @@ def c08e(tree, ob):
                 defs = [src(v) for (st_, v) in fb.reaching_defs(other.id, n.ast) if v is not None and isinstance(v, ast.AST)] if isinstance(other, ast.Name) else [src(full)]
                 if defs and all('cbor2.dumps(' in d for d in defs):
                     checks.append(n)
+        # the comparison is with the octets that ARRIVED: the parameter is not re-bound on a way that reaches a comparison with it
+        # (normalised first -- "the same blocks in other framing" -- the input is compared with itself)
+        cmps = [n for n in fb.cfg.nodes if n.kind == 'cond' and isinstance(n.ast, ast.Compare) and any(isinstance(x, ast.Name) and x.id == sp for x in [n.ast.left] + list(n.ast.comparators))]
+        for st in [n for n in fb.cfg.nodes if n.kind == 'stmt' and isinstance(n.ast, (ast.Assign, ast.AugAssign, ast.AnnAssign))
+                   and any(isinstance(x, ast.Name) and x.id == sp and isinstance(x.ctx, ast.Store) for x in ast.walk(n.ast))]:
+            after = fb.cfg.reachable([st])
+            hit = [c for c in cmps if c in after and c is not st]
+            if hit:
+                ob.violate(BUNDLE, fb.qual, '{}  ... then compared: {}'.format(st.text()[:50], hit[0].text()[:50]), 'the input of the bundle decoder is replaced before it is compared with the re-encoding of the decoded '
+                           'items: what is compared is no longer what arrived, another encoding of the same values (non-shortest head, bignum) passes and re-encodes as the octets the CRC was computed over', st.ast, sure=True)
         raises = [r for r in walk_local(fb.func) if isinstance(r, ast.Raise) and any(('!= ' + sp in t and p_ is True) or ('== ' + sp in t and p_ is False) for (t, p_) in (fb.facts(r) or ()))]
         deleg = [c for c in calls_in(fb.func) if isinstance(c.func, ast.Attribute) and c.func.attr == 'dissect' and c is not fb.func]
         if checks and raises and deleg and all(fb.cfg.must_pass(fb.cfg.entry, fb.node(d), set(checks) | {n for n in fb.cfg.nodes if n.kind == 'cond' and 'isinstance({}, bytes)'.format(sp) in src(n.ast)}, include_exc=False)[0] for d in deleg):
